@@ -11,6 +11,14 @@ for pid in ids:
     if pid not in CHECKS or pid not in META:
         continue
     m = META[pid]
+    # the registered bounds, straight from verifcfg.py (authoritative where the prose above differs)
+    bl = []
+    for r in CHECKS[pid]["runs"]:
+        tiers = r.get("tiers", ["quick", "thorough"])
+        q = json.dumps(r.get("bounds_quick") or {}, sort_keys=True) if "quick" in tiers else "not run"
+        t = json.dumps(r.get("bounds_thorough") or {}, sort_keys=True) if "thorough" in tiers else "not run"
+        bl.append("%s: quick %s, thorough %s" % ("+".join(r["entries"]), q, t))
+    bounds_note = " Registered bounds per run (from verifcfg.py; {} = the harness has no size bound, every input dimension it names is explored in full): " + "; ".join(bl) + "."
     checks.append({
         "property_id": pid,
         "quick_cmd": "./check %s --tier quick" % pid,
@@ -19,7 +27,7 @@ for pid in ids:
         "replay_cmd_template": "./check %s --replay {path}" % pid,
         "engine": "gosym",
         "level_claimed": {"category": "model_checking", "text": m["text"], "design_ref": m["design_ref"]},
-        "level_note": m["note"],
+        "level_note": m["note"] + bounds_note,
         "technique": m.get("technique", "symbolic execution of the real go/ssa code (gosym) + SMT (z3, QF_BV); counterexamples replayed natively"),
     })
 na = [{"property_id": p, "reason": NOT_APPLICABLE[p]} for p in ids if p not in {c["property_id"] for c in checks}]
